@@ -72,6 +72,7 @@ let () =
   let cases = ref 0 and steps = ref 0 and mism = ref 0 and tainted = ref 0 and tainted_diff = ref 0 in
   let sends = ref 0 and wa = ref 0 and wb = ref 0 and rd = ref 0 and rb = ref 0 and inputs = ref 0 and flushes = ref 0 in
   let s = ref (sess_new Z0) in
+  let dtab : (int, z list) Hashtbl.t = Hashtbl.create 64 in
   let pending : string option ref = ref None and taint = ref false and stepno = ref 0 and in_case = ref false in
   let report what line impl model =
     if !pending = None then begin
@@ -102,10 +103,13 @@ let () =
        match toks with
        | ("wcase" | "rcase") :: _ :: rest ->
            finish ();
-           incr cases; pending := None; taint := false; stepno := 0; in_case := true;
+           incr cases; pending := None; taint := false; stepno := 0; in_case := true; Hashtbl.reset dtab;
            s := new_case (List.map kv rest)
        | "taint" :: _ -> taint := true
        | "end" :: _ -> finish ()
+       | "i" :: _ :: _ :: d :: _ when !pending <> None ->
+           (* keep the datagram table in step even when the rest of the case is skipped *)
+           if String.length d > 0 && d.[0] <> '@' then Hashtbl.replace dtab (Hashtbl.length dtab) (bytes_of_hex d)
        | _ when !pending <> None -> ()
        | "w" :: now :: wd :: nb :: rest ->
            incr steps; incr stepno;
@@ -134,7 +138,10 @@ let () =
             | Ok ((k1, _), _) -> s := { core = k1; bufptr = !s.bufptr }; check_proj line proj)
        | "i" :: now :: nd :: d :: "=" :: proj ->
            incr steps; incr stepno; incr inputs;
-           (match input !s.core (bytes_of_hex d) true (nd = "1") (z_of_int (zs now)) with
+           let dg =
+             if String.length d > 0 && d.[0] = '@' then Hashtbl.find dtab (zs (String.sub d 1 (String.length d - 1)))
+             else begin let b = bytes_of_hex d in Hashtbl.replace dtab (Hashtbl.length dtab) b; b end in
+           (match input !s.core dg true (nd = "1") (z_of_int (zs now)) with
             | Panic w -> report "input-panic" line "" ("P" ^ zi w)
             | Ok ((k1, _), _) -> s := { core = k1; bufptr = !s.bufptr }; check_proj line proj)
        | "r" :: n :: "=" :: res ->
